@@ -340,6 +340,18 @@ def _sequences(R, rule, tu, call, E, calls, tabs):
                 exp = [(y_, m_, b) for b in range(b1, 0, -1)] + [(y_, m2, b) for b in range(nb(m2), b2 - 1, -1)]
             if got != exp:
                 bad.append((what, "%d values %s" % (len(got), got[:5]), "%d values %s" % (len(exp), exp[:5])))
+    # date-times held as month-count-weekday: steps within one day are told apart by the time
+    Ec = tu.enum_value("DT_YMCW")
+    for (h1, h2, v) in ((10, 15, 1), (15, 10, -1)):
+        def ymcw(h):
+            return {"typ": Ec, "sandwich": 1, "d.typ": Ec, "d.ymcw.y": 2014, "d.ymcw.m": 8, "d.ymcw.c": 1, "d.ymcw.w": 5,
+                    "t.typ": E["DT_HMS"], "t.hms.h": h, "t.hms.m": 0, "t.hms.s": 0, "t.hms.ns": 0}
+        st, recs = replay(ymcw(h1), ymcw(h2), [dur("DT_DURH", v)])
+        n += 1
+        got = [r.get("t.hms.h") for r in (recs or [])]
+        exp = list(range(h1, h2 + v, v))
+        if st != "ok" or got != exp:
+            bad.append(("dseq 2014-08-01-05T%02d:00:00 %+dh 2014-08-01-05T%02d:00:00" % (h1, v, h2), "%s %s" % (st, got), "hours %s" % exp))
     # times of day
     tcases = [((0, 0, 0), (23, 0, 0), ("DT_DURH", 12)), ((0, 0, 0), (23, 0, 0), ("DT_DURH", 6)), ((0, 0, 0), (5, 0, 0), ("DT_DURH", 1)),
               ((23, 0, 0), (0, 0, 0), ("DT_DURH", -12)), ((22, 0, 0), (2, 0, 0), ("DT_DURH", 1)), ((13, 0, 0), (2, 0, 0), ("DT_DURH", 12)),
